@@ -6,7 +6,9 @@
    Every reader ends, as tabio.read does, with GenomicArray.sort
    (Model/Chromsort.v).  The +1/-1 literals are the generated offsets of
    Gen/Formats.v.  Column *order* (GenomicArray.sort_columns) is not modelled:
-   rows are compared by column name.  No proofs here. *)
+   rows are compared by column name.  Second half of the file (extension): GFF gene labels,
+   type filter and pre-sort; SEG read through a chromosome-name map; Picard per-target columns;
+   VCF record ends.  No proofs here. *)
 From CNV Require Import Base.Prelude Base.Str Model.Decimal Model.Chromsort Model.Sniff.
 From CNV Require Import Gen.Formats.
 
@@ -39,14 +41,26 @@ Definition bed_body (ls : list line) : list line :=
   | f :: t => (if line_starts "track" f then [] else [f]) ++ until_track t
   end.
 
-(* _parse_line: chrom, int(start), int(end), gene (default '-'), strand (default '.') *)
+(* str.rstrip(): trailing white space removed (Python's isspace on ASCII = Sniff.is_space) *)
+Fixpoint drop_while {A} (p : A -> bool) (l : list A) : list A :=
+  match l with
+  | x :: t => if p x then drop_while p t else l
+  | [] => []
+  end.
+Definition rstrip_ws (s : string) : string := unchars (rev (drop_while is_space (rev (chars s)))).
+
+(* _parse_line: fields = line.split("\t", 6); chrom, int(start), int(end),
+   gene = fields[3].rstrip() if len(fields) >= 4 else '-',
+   strand = fields[5].rstrip() if len(fields) >= 6 else '.'.
+   The column-count rule: 3 columns -> ('-', '.'), 4 or 5 -> (name, '.'), 6 and more ->
+   (name, strand); score, thickStart/End, itemRgb and the block columns are never looked at. *)
 Definition read_bed_line (f : line) : option row :=
   match f with
   | c :: s :: e :: rest =>
       match parse_Z s, parse_Z e with
       | Some s', Some e' =>
           Some ((c, s' + off_read_bed, e'),
-                [nth 0 rest bed_default_gene; nth 2 rest bed_default_strand])
+                [rstrip_ws (nth 0 rest bed_default_gene); rstrip_ws (nth 2 rest bed_default_strand)])
       | _, _ => None
       end
   | _ => None
@@ -74,6 +88,15 @@ Definition write_bed3 (t : list row) : list line := map bed3_line t.
 Definition bed4_line (r : row) : line :=
   coord_fields off_write_bed4 (fst r) ++ [nth 0 (snd r) bed_default_gene].
 Definition write_bed4 (t : list row) : list line := map bed4_line t.
+
+(* write_bed ("bed"): a 3-column frame goes through write_bed3, anything else is written
+   as it is, every trailing column kept in table order *)
+Definition bed_line (r : row) : line :=
+  match snd r with
+  | [] => bed3_line r
+  | ex => coord_fields off_write_bed (fst r) ++ ex
+  end.
+Definition write_bed (t : list row) : list line := map bed_line t.
 
 (* ---- tab (tab.py): header row, arbitrary extra columns ------------------------ *)
 
@@ -356,3 +379,249 @@ Definition read_auto (hint : option string) (ls : list line) : auto_result :=
       else AutoUnsupported name
   | Some _ => AutoUnrecognized
   end.
+
+(* ==================================================================================== *)
+(* Extension: GFF gene labels / type filter, SEG with enumerated chromosome ids read back
+   through a name map, Picard per-target columns, VCF record ends.                       *)
+
+(* ---- GFF: gene label from the attribute column (gff.py) ---------------------------------
+   rx = re.compile(tag + TAIL) with TAIL = Gen.Formats.pat_gff_gene, i.e. [= ] Q? (?P<gene>\S+?) Q? (;|$) where Q is the double quote;  attribute.str.extract(rx)[gene]
+   i.e. re.search: leftmost start, alternatives of `tag` in order, greedy optional quote with
+   backtracking, lazy \S+? up to the first place where an optional quote is followed by ';'
+   or the end of the field.  `tag` is modelled as the list of its literal alternatives
+   (Gen.Formats.gff_default_tags for the default '(Name|gene_id|gene_name|gene)'); '$' is
+   the end of the field (fields carry no newline). *)
+
+Definition dquote : ascii := ascii_of_nat 34.
+Definition semicolon : ascii := ";"%char.
+
+(* Q?(;|$) here, else one more \S and again *)
+Fixpoint gff_gene_tail (acc : list ascii) (cs : list ascii) : option (list ascii) :=
+  match cs with
+  | [] => Some (rev acc)
+  | c :: t =>
+      if Ascii.eqb c dquote && (match t with [] => true | d :: _ => Ascii.eqb d semicolon end)
+      then Some (rev acc)
+      else if Ascii.eqb c semicolon then Some (rev acc)
+      else if is_nonspace c then gff_gene_tail (c :: acc) t
+      else None
+  end.
+
+(* (?P<gene>\S+?)Q?(;|$) : at least one non-space character *)
+Definition gff_gene_body (cs : list ascii) : option (list ascii) :=
+  match cs with
+  | c :: t => if is_nonspace c then gff_gene_tail [c] t else None
+  | [] => None
+  end.
+
+(* [= ]Q?... after the tag; the opening quote is tried first, then left to \S+? *)
+Definition gff_after_tag (cs : list ascii) : option (list ascii) :=
+  match cs with
+  | sep :: r =>
+      if Ascii.eqb sep "="%char || Ascii.eqb sep " "%char then
+        match r with
+        | q :: r' =>
+            if Ascii.eqb q dquote then
+              match gff_gene_body r' with Some g => Some g | None => gff_gene_body r end
+            else gff_gene_body r
+        | [] => None
+        end
+      else None
+  | [] => None
+  end.
+
+Fixpoint strip_prefix (p cs : list ascii) : option (list ascii) :=
+  match p, cs with
+  | [], _ => Some cs
+  | a :: p', b :: cs' => if Ascii.eqb a b then strip_prefix p' cs' else None
+  | _ :: _, [] => None
+  end.
+
+Definition gff_try_tag (tg cs : list ascii) : option (list ascii) :=
+  match strip_prefix tg cs with Some r => gff_after_tag r | None => None end.
+
+(* the match anchored at the head of cs: first alternative that completes *)
+Fixpoint gff_gene_at (tags : list (list ascii)) (cs : list ascii) : option (list ascii) :=
+  match tags with
+  | [] => None
+  | tg :: more => match gff_try_tag tg cs with Some g => Some g | None => gff_gene_at more cs end
+  end.
+
+(* re.search: leftmost position with a match *)
+Fixpoint gff_gene_search (tags : list (list ascii)) (cs : list ascii) : option (list ascii) :=
+  match cs with
+  | [] => gff_gene_at tags []
+  | _ :: t => match gff_gene_at tags cs with Some g => Some g | None => gff_gene_search tags t end
+  end.
+
+(* gene column: the extracted group, '-' where nothing matches (fillna) *)
+Definition gff_gene (tags : list string) (attr : string) : string :=
+  match gff_gene_search (map chars tags) (chars attr) with
+  | Some g => unchars g
+  | None => gff_default_gene
+  end.
+
+(* extras of a GFF row: [gene; strand; type] *)
+Definition read_gff_row (tags : list string) (f : line) : option row :=
+  match f with
+  | [c; _; ty; s; e; _; st; _; attr] =>
+      match parse_Z s, parse_Z e with
+      | Some s', Some e' => Some ((c, s' + off_read_gff, e'), [gff_gene tags attr; st; ty])
+      | _, _ => None
+      end
+  | _ => None
+  end.
+
+Definition gff_type (r : row) : string := nth 2 (snd r) EmptyString.
+
+(* sort_values(['chromosome', 'start', 'end']): plain string order of the names, stable *)
+Definition gff_presort (t : list row) : list row :=
+  stable_sort (fun a b => str_region_leb (fst a) (fst b)) t.
+
+(* `if keep_type:` -- None and '' keep everything *)
+Definition gff_keep (keep_type : option string) (r : row) : bool :=
+  match keep_type with
+  | None => true
+  | Some ty => if String.eqb ty "" then true else String.eqb (gff_type r) ty
+  end.
+
+(* read_gff(infile, tag, keep_type) followed by GenomicArray.sort *)
+Definition read_gff_full (tags : list string) (keep_type : option string) (ls : list line)
+  : option (list row) :=
+  option_map (fun t => sort_rows (filter (gff_keep keep_type) (gff_presort t)))
+    (all_some (map (read_gff_row tags) (filter (fun f => negb (line_starts "#" f)) ls))).
+
+(* ---- SEG read back through a chromosome-name map (import-seg -c / -p) -------------------- *)
+
+Definition rename_chrom (f : string -> string) (r : row) : row :=
+  let '(c, s, e) := fst r in ((f c, s, e), snd r).
+
+(* parse_seg(infile, chrom_names, chrom_prefix): Series.replace(dict) maps whole values,
+   all keys at once; then the prefix is prepended *)
+Definition parse_seg_names (names : list (string * string)) (prefix : string) (ls : list line)
+  : option (list (string * list row)) :=
+  option_map (map (fun sr => (fst sr, map (rename_chrom (fun c => (prefix ++ lookup c names)%string)) (snd sr))))
+    (parse_seg ls).
+
+Definition import_seg_names (names : list (string * string)) (prefix : string) (ls : list line)
+  : option (list (string * list row)) :=
+  option_map (map (fun sr => (fst sr, sort_rows (snd sr)))) (parse_seg_names names prefix ls).
+
+(* the map that undoes create_chrom_ids: the i-th distinct name of the first sample was
+   written as i+1 (whether or not it already read i+1) *)
+Fixpoint ids_inverse_aux (names : list string) (i : Z) : list (string * string) :=
+  match names with
+  | [] => []
+  | c :: t => (print_Z i, c) :: ids_inverse_aux t (i + 1)
+  end.
+
+Definition first_names (first : list row) : list string :=
+  distinct_names [] (map (fun r => fst (fst (fst r))) first).
+
+Definition seg_ids_inverse (first : list row) : list (string * string) :=
+  ids_inverse_aux (first_names first) 1.
+
+(* ---- Picard per-target table, all columns: extras [name; %gc; mean_coverage; normalized] ---- *)
+Definition read_picardhs_full_line (f : line) : option row :=
+  match f with
+  | [c; s; e; _; name; gc; cov; norm] =>
+      match parse_Z s, parse_Z e with
+      | Some s', Some e' => Some ((c, s' + off_read_picardhs, e'), [name; gc; cov; norm])
+      | _, _ => None
+      end
+  | _ => None
+  end.
+
+Definition read_picardhs_full (ls : list line) : option (list row) :=
+  match ls with
+  | [] => Some []
+  | _ :: body => option_map sort_rows (all_some (map read_picardhs_full_line body))
+  end.
+
+Definition picardhs_header : line :=
+  ["chrom"; "start"; "end"; "length"; "name"; "%gc"; "mean_coverage"; "normalized_coverage"]%string.
+
+(* ---- VCF record ends ------------------------------------------------------------------------ *)
+
+Definition slen (s : string) : Z := Z.of_nat (String.length s).
+
+(* the text after the first occurrence of p (str.find) *)
+Fixpoint after_first (p cs : list ascii) : option (list ascii) :=
+  match strip_prefix p cs with
+  | Some r => Some r
+  | None => match cs with [] => None | _ :: t => after_first p t end
+  end.
+
+Fixpoint take_until (c : ascii) (cs : list ascii) : list ascii :=
+  match cs with
+  | x :: t => if Ascii.eqb x c then [] else x :: take_until c t
+  | [] => []
+  end.
+
+(* vcfsimple.parse_end_from_info: idx = info.find("END="); -1 if absent;
+   int(text after it up to the next ';').  None = int() fails *)
+Definition vcf_end_from_info (info : string) : option Z :=
+  match after_first (chars vcf_end_key) (chars info) with
+  | None => Some vcf_end_missing
+  | Some r => parse_Z (unchars (take_until semicolon r))
+  end.
+
+(* vcfsimple.set_ends: where end == -1, end = start + max(0, len(alt) - len(ref)) *)
+Definition vcf_simple_end (start : Z) (ref alt info : string) : option Z :=
+  match vcf_end_from_info info with
+  | Some e => Some (if e =? vcf_end_missing then start + Z.max vcf_end_clip (slen alt - slen ref) else e)
+  | None => None
+  end.
+
+(* extras [ref; alt] *)
+Definition read_vcf_simple_row (off : Z) (f : line) : option row :=
+  match f with
+  | c :: p :: _ :: ref :: alt :: _ :: _ :: info :: _ =>
+      match parse_Z p with
+      | Some p' =>
+          match vcf_simple_end (p' + off) ref alt info with
+          | Some e => Some ((c, p' + off, e), [ref; alt])
+          | None => None
+          end
+      | None => None
+      end
+  | _ => None
+  end.
+
+Definition read_vcf_simple_rows (off : Z) (ls : list line) : option (list row) :=
+  option_map sort_rows
+    (all_some (map (read_vcf_simple_row off) (filter (fun f => negb (line_starts "#" f)) ls))).
+
+(* vcfio._get_end(posn, alt, info): info["END"] if "END" in info else posn + len(alt).
+   Whether the mapping record.info contains END is pysam's answer (an input of the model). *)
+Definition vcfio_get_end (info_end : option Z) (posn : Z) (alt : string) : Z :=
+  match info_end with Some e => e | None => posn + slen alt end.
+
+Fixpoint split_on (c : ascii) (cur : list ascii) (cs : list ascii) : list (list ascii) :=
+  match cs with
+  | [] => [rev cur]
+  | x :: t => if Ascii.eqb x c then rev cur :: split_on c [] t else split_on c (x :: cur) t
+  end.
+
+(* vcfio._parse_records: one row per ALT allele, '<NON_REF>' skipped, ALT '.' gives no row;
+   start = record.start = POS - 1 (pysam) + the generated offset of _parse_records (0) *)
+Definition read_vcfio_line (info_end : option Z) (f : line) : option (list row) :=
+  match f with
+  | c :: p :: _ :: ref :: alt :: _ =>
+      match parse_Z p with
+      | Some p' =>
+          let start := p' - 1 + off_read_vcfio_after_pysam in
+          if String.eqb alt "." then Some []
+          else Some (map (fun a => ((c, start, vcfio_get_end info_end start a), [ref; a]))
+                      (filter (fun a => negb (String.eqb a vcf_nonref))
+                         (map unchars (split_on ","%char [] (chars alt)))))
+      | None => None
+      end
+  | _ => None
+  end.
+
+(* lines paired with pysam's END answer *)
+Definition read_vcfio (ls : list (option Z * line)) : option (list row) :=
+  option_map (fun t => sort_rows (concat t))
+    (all_some (map (fun p => read_vcfio_line (fst p) (snd p))
+                 (filter (fun p => negb (line_starts "#" (snd p))) ls))).
